@@ -700,6 +700,7 @@ int main(int argc, char **argv) {
         if (esx_token_is_for(v_replay_token, model.name)) rc = esx_replay(&model, v_replay_token);
     } else {
         esx_run(&model);
+        ESX_CYCLES(&model);
     }
     v_finish();
     return (v_sh->viol_count || rc) ? 1 : 0;
